@@ -23,10 +23,10 @@ META = dict(
                  'countermodel search is bounded (worlds <= 2/3, extra constants <= 1/2, sampled above 3000/20000 interpretations): '
                  'a VALID verdict that survives is "not refuted within the bound"',
                  'monitoring cap of 300/600 steps: capped runs have no verdict and are skipped (counted)'],
-    min_events={'quick': {'valid_verdicts_checked': 1500, 'logics': 57, 'runs': 6000},
-                'thorough': {'valid_verdicts_checked': 20000, 'logics': 57, 'runs': 60000}},
-    budget=dict(quick=420, thorough=3000),
-    unit_timeout=dict(quick=330, thorough=2400),
+    min_events={'quick': {'valid_verdicts_checked': 1500, 'logics': 52, 'runs': 6000},
+                'thorough': {'valid_verdicts_checked': 20000, 'logics': 52, 'runs': 60000}},
+    budget=dict(quick=1500, thorough=3000),
+    unit_timeout=dict(quick=900, thorough=3000),
 )
 
 NRANDOM = dict(quick=70, thorough=900)
